@@ -258,6 +258,15 @@ impl SecondaryStorage {
             ordered_pk_ids: ordered_pk_ids.to_vec(),
         };
 
+        let _ddl_guard = self.ddl_lock.lock().await;
+        // Two sessions may both have passed the binder's existence check: do not log a second
+        // `CreateTable` for the same name (the manifest could not be replayed any more).
+        if let Some(schema) = self.catalog.get_schema_by_id(schema_id)
+            && schema.get_table_by_name(table_name).is_some()
+        {
+            return Err(TracedStorageError::duplicated("table", table_name));
+        }
+
         // persist to manifest first
         self.version
             .commit_changes(vec![EpochOp::CreateTable(entry.clone())])
@@ -298,6 +307,7 @@ impl SecondaryStorage {
         // drop would delete the same row-sets a second time (the vacuum then fails on the missing
         // directory) and add a row-set to a table that no longer exists.
         let _guard = self.txn_mgr.lock_for_deletion(table_id.table_id).await;
+        let _ddl_guard = self.ddl_lock.lock().await;
 
         let mut changeset = vec![];
 
